@@ -32,8 +32,10 @@ pub struct Shape {
 
 pub const METHODS: [(&str, bool); 5] = [("GET", false), ("POST", false), ("OPTIONS", false), ("CONNECT", false), ("CONNECT", true)];
 /// (uri, extra Host header)
-pub const TARGETS: [(&str, Option<&str>); 5] = [
+pub const TARGETS: [(&str, Option<&str>); 7] = [
     ("https://a.example/", None),
+    ("https://a.example/?page=2&s=a", None),
+    ("https://a.example?x=1", None),
     ("http://a.example/p?q=1", None),
     ("https://a.example", None),
     ("a.example:443", None),
@@ -598,7 +600,7 @@ pub fn run(args: &Args) -> i32 {
     rep.exhaustive = true;
     let shapes = shapes(thorough);
     rep.rule = format!(
-        "{} message shapes from the product of 5 method kinds (GET, POST, OPTIONS, CONNECT, extended CONNECT) x 5 targets (absolute https/http with and without path and query, authority-form, path + Host header) x 7 header multisets (static-table hit, name-only hit, literal, a name three times interleaved with another, 300-byte value, bytes 0x80-0xff) x 9 body piece lists (0..65536 bytes, pieces of 0,1,2,3,63,64,65,16383,16384 bytes) x 3 trailer options, independently for request and response, request stream whole or split into halves on separate tasks. Each shape: every execution with <= {bound} deviations, a deviation being a chunk cut (dense for short reads, at write-chunk boundaries +-1 otherwise) or delayed delivery on the request stream in either direction, a partial or pending write acceptance, or a scheduling choice other than the FIFO default among client task, client driver, server task, handlers and split halves; plus every shape once under one-byte-per-read and once under one-byte-per-write. Body bytes are position-coded. Oracle: message in = message out. states = distinct (transport cursors, observation progress) fingerprints; non-trivial = executions with at least one deviation.",
+        "{} message shapes from the product of 5 method kinds (GET, POST, OPTIONS, CONNECT, extended CONNECT) x 7 targets (absolute https/http with and without path and query, root path with a query, empty path with a query, authority-form, path + Host header) x 7 header multisets (static-table hit, name-only hit, literal, a name three times interleaved with another, 300-byte value, bytes 0x80-0xff) x 9 body piece lists (0..65536 bytes, pieces of 0,1,2,3,63,64,65,16383,16384 bytes) x 3 trailer options, independently for request and response, request stream whole or split into halves on separate tasks. Each shape: every execution with <= {bound} deviations, a deviation being a chunk cut (dense for short reads, at write-chunk boundaries +-1 otherwise) or delayed delivery on the request stream in either direction, a partial or pending write acceptance, or a scheduling choice other than the FIFO default among client task, client driver, server task, handlers and split halves; plus every shape once under one-byte-per-read and once under one-byte-per-write. Body bytes are position-coded. Oracle: message in = message out. states = distinct (transport cursors, observation progress) fingerprints; non-trivial = executions with at least one deviation.",
         shapes.len()
     );
     rep.assumptions = vec![
